@@ -26,6 +26,7 @@ import (
 )
 
 type explorer struct {
+	late     []func() string // renderers of retained results (re-rendered after all threads have finished)
 	shard    int
 	nshards  int
 	sc       scen.Scenario
@@ -44,9 +45,17 @@ type explorer struct {
 func (e *explorer) run(prefix []int) *vsched.Sched {
 	shared := e.sc.New()
 	bodies := make([]func() string, len(e.sc.Calls))
+	e.late = make([]func() string, len(e.sc.Calls))
 	for i, c := range e.sc.Calls {
-		c := c
-		bodies[i] = func() string { return c.F(shared) }
+		i, c := i, c
+		bodies[i] = func() string {
+			if c.R != nil {
+				r := c.R(shared)
+				e.late[i] = r
+				return r()
+			}
+			return c.F(shared)
+		}
 	}
 	return vsched.Run(bodies, prefix, 200000, e.onlySync)
 }
@@ -75,6 +84,14 @@ func (e *explorer) check(x *vsched.Sched, choices []int) {
 	if x.Err != "" {
 		e.w.Violate(hx.Violation{Key: schedKey(e.sc.Name, choices, e.onlySync), Class: "scheduler:" + strings.Fields(x.Err)[0], Detail: map[string]any{"error": x.Err}})
 		return
+	}
+	// results the callers kept must still read the same after every other call has finished
+	for i, l := range e.late {
+		if l != nil && res[i] == e.expected[i] {
+			if again := l(); again != res[i] {
+				res[i] = again + "   [changed after the call returned; at return time it was correct]"
+			}
+		}
 	}
 	for i, r := range res {
 		if r != e.expected[i] {
@@ -201,13 +218,29 @@ func runHistories(w *hx.Worker, depth int, first int) {
 			w.Count("evaluations", 1)
 			w.Count("histories", 1)
 			var names []string
+			var first func() string
 			for k, ci := range seq {
-				r := calls[ci].F(p)
+				var r string
+				if calls[ci].R != nil {
+					l := calls[ci].R(p)
+					r = l()
+					if k == 0 {
+						first = l
+					}
+				} else {
+					r = calls[ci].F(p)
+				}
 				names = append(names, calls[ci].Name)
 				w.Count("transitions", 1)
 				if k == len(seq)-1 && r != fresh[ci] {
 					w.Violate(hx.Violation{Key: fmt.Sprintf("history %s", strings.Join(names, " ; ")), Class: "result-depends-on-earlier-calls:" + calls[ci].Name,
 						Detail: map[string]any{"got": r, "alone_on_fresh_instance": fresh[ci]}})
+				}
+			}
+			if first != nil && len(seq) > 1 {
+				if again := first(); again != fresh[seq[0]] {
+					w.Violate(hx.Violation{Key: fmt.Sprintf("history %s", strings.Join(names, " ; ")), Class: "earlier-result-changed-by-later-calls:" + calls[seq[0]].Name,
+						Detail: map[string]any{"now": again, "when_returned": fresh[seq[0]]}})
 				}
 			}
 			w.DistinctS("h" + strings.Join(names, ";"))
@@ -230,7 +263,8 @@ type lexPair struct {
 
 func lexPairs() []lexPair {
 	return []lexPair{
-		{"runtime heredoc (back-reference cache)", func() lexer.Definition { return scen.NewDef() }, []string{"a=<<X h X;", "b=<<Y w Y;", "c=<<X o X", "k=<-XY b X;", "a=<<X x"}},
+		{"runtime heredoc (back-reference cache)", func() lexer.Definition { return scen.NewDef() }, []string{"a=<<X h X;", "b=<<Y w Y;", "c=<<X o X", "k=<-XY b X;", "a=<<X x", "q=<=x X"}},
+		{"text/scanner (default definition)", func() lexer.Definition { return lexer.TextScannerLexer }, []string{"alpha beta", "x 12 \"s\"", "// c\ny", "z"}},
 		{"runtime alias (NUL-joined cache keys)", func() lexer.Definition { return lexer.MustStateful(scen.AliasRules()) }, []string{"x\x00yx\x00y!", "tx\x00yxx\x00y!", "x\x00yx!"}},
 		{"runtime \\0 back-reference", func() lexer.Definition { return lexer.MustStateful(scen.ZeroRefRules()) }, []string{"''i's'' x", "'a' b", "'''q'''", "w"}},
 		{"runtime quotes", func() lexer.Definition { return lexer.MustStateful(scen.QuoteRules()) }, []string{`"it's" x`, `'say "hi"' y`, `"a (b 'c') d"`, `w`}},
@@ -255,6 +289,44 @@ func drain(lx lexer.Lexer, n int) (out []string) {
 
 // interleavings: every interleaving (at Next() granularity) of two or three live lexers of one
 // shared definition; every lexer's stream must equal its stream on a fresh definition used alone.
+// ebnf histories: every sequence (depth <= 4) of calls on the package-level ebnf parser, including a
+// caller that edits the tree it got; every result equals the result of the same call made first.
+func runEbnfHistories(w *hx.Worker, depth int) {
+	var calls []scen.Call
+	for _, sc := range scen.Scenarios() {
+		if strings.HasPrefix(sc.Name, "S3") {
+			calls = sc.Calls
+		}
+	}
+	fresh := make([]string, len(calls))
+	for i, c := range calls {
+		fresh[i] = c.F(nil)
+	}
+	var rec func(seq []int)
+	rec = func(seq []int) {
+		if len(seq) > 0 {
+			w.Count("evaluations", 1)
+			w.Count("histories", 1)
+			var names []string
+			for k, ci := range seq {
+				r := calls[ci].F(nil)
+				names = append(names, calls[ci].Name)
+				if k == len(seq)-1 && r != fresh[ci] {
+					w.Violate(hx.Violation{Key: "history " + strings.Join(names, " ; "), Class: "result-depends-on-earlier-calls:" + calls[ci].Name, Detail: map[string]any{"got": r, "first_time": fresh[ci]}})
+				}
+			}
+			w.DistinctS("eh" + strings.Join(names, ";"))
+		}
+		if len(seq) == depth {
+			return
+		}
+		for ci := range calls {
+			rec(append(append([]int{}, seq...), ci))
+		}
+	}
+	rec(nil)
+}
+
 func runInterleavings(w *hx.Worker, pi int) {
 	lp := lexPairs()[pi]
 	alone := map[string][]string{}
@@ -410,6 +482,7 @@ func jobsFor(quick bool) []jobT {
 	for i := range lexPairs() {
 		js = append(js, jobT{kind: "interleave", idx: i})
 	}
+	js = append(js, jobT{kind: "ebnfhistory"})
 	js = append(js, jobT{kind: "race"})
 	return js
 }
@@ -432,6 +505,8 @@ func plan(c *hx.Ctx) *hx.Plan {
 				runHistories(w, depth, js[i].idx)
 			case "interleave":
 				runInterleavings(w, js[i].idx)
+			case "ebnfhistory":
+				runEbnfHistories(w, 4)
 			case "race":
 				runRacePass(w, rounds)
 			}
